@@ -34,13 +34,20 @@ class _Timeout(BaseException):
     pass
 
 
+class StepLimit(BaseException):
+    """the step meter (Column.add + IterativeParser.complete calls) exceeded `_Reg.limit` (C06: caps are counted
+    in steps; the wall-clock alarm is only a backstop)"""
+
+
 class _Reg:
     cols: list = []
     adds = 0
     admitted = 0
     completes = 0
+    states = 0            # ParseState objects constructed (every loop of the parser builds states)
     pred: list = []
     installed = False
+    limit: Optional[int] = None      # None = unmetered (C04); set per request from task["step_limit"]
 
 
 def _install() -> None:
@@ -50,9 +57,19 @@ def _install() -> None:
     from fandango.language.grammar.parser.column import Column
     from fandango.language.grammar.parser.iterative_parser import IterativeParser
 
+    from fandango.language.grammar.parser.parse_state import ParseState
     orig_init = Column.__init__
     orig_add = Column.add
     orig_complete = IterativeParser.complete
+    orig_state_init = ParseState.__init__
+
+    def state_init(self, *a, **k):
+        _Reg.states += 1
+        if _Reg.limit is not None and _Reg.states > 8 * _Reg.limit:
+            raise StepLimit()
+        orig_state_init(self, *a, **k)
+
+    ParseState.__init__ = state_init
 
     def init(self, states=None):
         orig_init(self, states)
@@ -63,6 +80,8 @@ def _install() -> None:
         _Reg.adds += 1
         if r:
             _Reg.admitted += 1
+        if _Reg.limit is not None and _Reg.adds + _Reg.completes > _Reg.limit:
+            raise StepLimit()
         return r
 
     def update(self, states):
@@ -73,6 +92,8 @@ def _install() -> None:
 
     def complete(self, *a, **k):
         _Reg.completes += 1
+        if _Reg.limit is not None and _Reg.adds + _Reg.completes > _Reg.limit:
+            raise StepLimit()
         return orig_complete(self, *a, **k)
 
     Column.__init__ = init
@@ -84,7 +105,7 @@ def _install() -> None:
 
 def _reset() -> None:
     _Reg.cols = []
-    _Reg.adds = _Reg.admitted = _Reg.completes = 0
+    _Reg.adds = _Reg.admitted = _Reg.completes = _Reg.states = 0
     _Reg.pred = []
 
 
@@ -296,6 +317,7 @@ def real_case(task: dict) -> dict:
     max_trees = int(task.get("max_trees", 64))
     trees = []
     _reset()
+    _Reg.limit = task.get("step_limit")
 
     def on_alarm(signum, frame):
         raise _Timeout()
@@ -312,17 +334,20 @@ def real_case(task: dict) -> dict:
                     break
         except _Timeout:
             status = "timeout"
+        except StepLimit:
+            status = "steplimit"
         except Exception as e:  # noqa
             status = f"exc:{type(e).__name__}"
     finally:
         signal.setitimer(signal.ITIMER_REAL, 0)
         signal.signal(signal.SIGALRM, old)
+        _Reg.limit = None
     res["status"] = status
     res["wall"] = round(time.time() - t0, 3)
     cols = _Reg.cols
     res["meter"] = {"adds": _Reg.adds, "admitted": _Reg.admitted, "completes": _Reg.completes,
                     "incomplete": sum(1 for c in cols for s in c.states if s.is_incomplete),
-                    "ncols": len(cols)}
+                    "ncols": len(cols), "states": _Reg.states}
     if status in ("ok", "truncated") or status.startswith("exc:"):
         try:
             res["cols"] = [[namer.state(s) for s in c.states if not s.is_incomplete] for c in cols]
@@ -363,15 +388,16 @@ def other_modes(task: dict, word, start: str) -> dict:
             out[name] = f"spec_error:{type(e).__name__}"
             continue
         _reset()
+        _Reg.limit = task.get("step_limit")
         old = signal.signal(signal.SIGALRM, on_alarm)
         signal.setitimer(signal.ITIMER_REAL, float(task.get("cap_s", 5.0)))
         st = "ok"
+        n = 0
         try:
             try:
                 if name == "first":
                     grammar.parse(word, start=start)
                 else:
-                    n = 0
                     for _t in grammar.parse_forest(word, start=start, mode=ParsingMode.INCOMPLETE):
                         n += 1
                         if n >= int(task.get("max_trees", 64)):
@@ -379,13 +405,18 @@ def other_modes(task: dict, word, start: str) -> dict:
                             break
             except _Timeout:
                 st = "timeout"
+            except StepLimit:
+                st = "steplimit"
             except Exception as e:  # noqa
                 st = f"exc:{type(e).__name__}"
         finally:
             signal.setitimer(signal.ITIMER_REAL, 0)
             signal.signal(signal.SIGALRM, old)
+            _Reg.limit = None
         out[name] = st
         out[name + "_adds"] = _Reg.adds
+        out[name + "_steps"] = _Reg.adds + _Reg.completes
+        out[name + "_trees"] = n
     _reset()
     return out
 
@@ -394,9 +425,10 @@ def other_modes(task: dict, word, start: str) -> dict:
 # pool
 # ------------------------------------------------------------------------------------------------
 
-def run_pool(tasks: list[dict], workers: int = 16, backstop_s: float = 60.0) -> list[dict]:
-    """run `real_case` on every task in worker processes; a worker that does not come back within
-    cap_s + backstop_s is killed and reported as status 'killed' (never silently dropped)"""
+def run_pool(tasks: list[dict], workers: int = 16, backstop_s: float = 60.0, fn=None) -> list[dict]:
+    """run `real_case` (or the module-level function `fn`) on every task in worker processes; a worker that does
+    not come back within cap_s + backstop_s is killed and reported as status 'killed' (never silently dropped)"""
+    fn = fn or real_case
     import multiprocessing as mp
     from harness.common import child_env
     if not tasks:
@@ -405,7 +437,7 @@ def run_pool(tasks: list[dict], workers: int = 16, backstop_s: float = 60.0) -> 
     ctx = mp.get_context("spawn")
     out: list[Optional[dict]] = [None] * len(tasks)
     with ctx.Pool(processes=min(workers, max(1, len(tasks))), maxtasksperchild=200) as pool:
-        pending = [(i, pool.apply_async(real_case, (t,))) for i, t in enumerate(tasks)]
+        pending = [(i, pool.apply_async(fn, (t,))) for i, t in enumerate(tasks)]
         for i, fut in pending:
             try:
                 out[i] = fut.get(timeout=float(tasks[i].get("cap_s", 5.0)) + backstop_s)
